@@ -253,14 +253,23 @@ func (e *evilServer) applyOps(ps []param, ops []hdrOp, rp []param) []param {
 	}
 	for _, op := range ops {
 		name := hdrParamNames[op.K]
-		e.labels = append(e.labels, "hdrop:"+hdrOpNames[op.Op]+":"+name)
+		kind := hdrOpNames[op.Op]
 		switch op.Op {
 		case 0:
 			put(op.Front, param{name, e.donor(name, op.Src, rp)})
-		case 1:
-			ps = delParam(ps, name)
-		case 2:
-			if i := idxParam(ps, name); i >= 0 {
+		case 1, 2:
+			// drop / duplicate act on a parameter that is there (construction, not rejection)
+			i := idxParam(ps, name)
+			if i < 0 {
+				if len(ps) == 0 {
+					continue
+				}
+				i = op.K % len(ps)
+				name = ps[i].K
+			}
+			if op.Op == 1 {
+				ps = delParam(ps, name)
+			} else {
 				put(op.Front, ps[i])
 			}
 		default:
@@ -269,9 +278,11 @@ func (e *evilServer) applyOps(ps []param, ops []hdrOp, rp []param) []param {
 				ps = cloneParams(ps)
 				ps[i].V = v
 			} else {
+				kind = "add"
 				put(op.Front, param{name, v})
 			}
 		}
+		e.labels = append(e.labels, "hdrop:"+kind+":"+name)
 	}
 	return ps
 }
@@ -477,6 +488,12 @@ func (e *evilServer) RoundTrip(req *http.Request) (*http.Response, error) {
 				e.labels = append(e.labels, "tell:challenge-server")
 				if !hasCS || s.chal != cs {
 					e.labels = append(e.labels, "tell:challenge-server-not-the-requests")
+				}
+				for _, c := range e.prevChal {
+					if c == s.chal {
+						e.labels = append(e.labels, "tell:challenge-server-of-earlier-session")
+						break
+					}
 				}
 			}
 			if p.Tell&2 != 0 {
